@@ -36,9 +36,15 @@ def analyse(pid, repo, only_rules=None):
     import io
     import contextlib
     buf = io.StringIO()
+    errors = []
     with contextlib.redirect_stdout(buf):
         for rule in meta['rules']:
-            rule(program, result)
+            try:
+                rule(program, result)
+            except frontend.AnalysisError as e:
+                errors.append(str(e))
+    if errors and not result.findings:
+        raise frontend.AnalysisError('; '.join(errors))
     return result
 
 
